@@ -141,12 +141,14 @@ class StmtMixin:
         for n, v in env_vals.items():
             self.assign_var(st, n, v)
         self.inline_depth += 1
-        saved_base = self.base_line
+        saved = (self.base_line, self.cur_contract, self.cur_loops)
+        from .loops import number_loops
+        self.cur_contract, self.cur_loops = c, number_loops(ext.node)
         try:
             outs = self.exec_block(extract.strip_docstring(ext.node.body), st)
         finally:
             self.inline_depth -= 1
-            self.base_line = saved_base
+            self.base_line, self.cur_contract, self.cur_loops = saved
         res = []
         rt = self.spec.T(c.returns)
         for o in outs:
